@@ -27,7 +27,8 @@ def workspace(c):
     files = {f"{c['dir']}/src/lib.rs": "pub mod m;\n", f"{c['dir']}/src/m.rs": prov}
     third = "#[typeshare]\npub struct Third { pub z: u32 }\n"
     if c["dup"]:
-        third += "#[typeshare]\npub struct Target { pub from_third: bool }\n"
+        ren3 = '#[serde(rename = "ThirdTarget")]\n' if c.get("dup_renamed") else ""
+        third += f"#[typeshare]\n{ren3}pub struct Target {{ pub from_third: bool }}\n"
     files["third/src/lib.rs"] = third
     form = c["form"]
     ty = "Target"
@@ -147,10 +148,13 @@ def run(chk):
             chk.extra["unreadable_outputs"] = chk.extra.get("unreadable_outputs", 0) + 1
             continue
         expected = [{"name": pre + "Consumer", "file": exp["consumer"]}, {"name": pre + "Third", "file": exp["third"]}, {"name": pre + "Other", "file": exp["provider"]}]
-        if not c["dup"] and not same_crate:
+        clash = c["dup"] and not c.get("dup_renamed")          # a renamed third-crate type has another name in the output
+        if c.get("dup_renamed"):
+            expected.append({"name": pre + "ThirdTarget", "file": exp["third"]})
+        if not clash and not same_crate:
             expected.append({"name": tname, "file": exp["provider"]})
         designated = {}
-        if c["dup"] or same_crate:
+        if clash or same_crate:
             designated[tname] = exp["consumer"] if same_crate else exp["provider"]
         if same_crate:
             designated = {tname: exp["consumer"]}          # designated as the consumer crate's own type: no import at all
@@ -188,7 +192,7 @@ def run(chk):
                     if e["designated"].get(i["name"]) == f["file"] and i["name"] in f["defs"]:
                         kinds.append("own-type-imported-from-elsewhere")
         for kind in sorted(set(kinds)) or ["unclassified"]:
-            chk.mismatch(f"C14/{lang}/{c['form']}/{'renamed' if c['renamed'] else 'plain'}/{'dup' if c['dup'] else 'nodup'}/{kind}",
+            chk.mismatch(f"C14/{lang}/{c['form']}/{'renamed' if c['renamed'] else 'plain'}/{('dup-renamed' if c.get('dup_renamed') else 'dup') if c['dup'] else 'nodup'}/{kind}",
                          f"{lang}: {kind} for workspace {c}: files {fobs}", {"case": c, "lang": lang}, "Workspace!PartitionOk /\\ ImportsOk", fobs)
     chk.traces += len(events) - len(tres.bad)
     chk.extra["trace_events"] = len(events)
